@@ -7,7 +7,7 @@ d = f"/verif/seeded/{name}"
 os.makedirs(d, exist_ok=True)
 for f in glob.glob(out + "/*"):
     b = os.path.basename(f)
-    if b in ("prompt.txt", "property.txt") or b.endswith(".log"):
+    if b in ("prompt.txt", "property.txt") or b.endswith(".log") or os.path.isdir(f):
         continue
     shutil.copy(f, d)
 meta = {
